@@ -78,7 +78,7 @@ def emit_param_str(
             filter(
                 None,
                 (
-                    _fill(
+                    (
                         (_param["typ"] if _param.get("typ") else None)
                         if name == "return_type"
                         else "{name} :{typ}".format(
